@@ -252,7 +252,7 @@ Definition old_store_table : facts :=
   mk_facts [("STORE", "message.HandleStore")]
     [mk_site "STORE" "message.HandleStore" AccUserSelf "state.UserID" true true false false false false "w1";
      mk_site "STORE" "message.HandleStore" UseSel "userDB.Exec" true true false false false false "w2"]
-    [("STORE", "message.HandleStore", (1, 1))] true true true.
+    [("STORE", "message.HandleStore", (1, 1))] true true true true.
 
 Lemma old_accessor_breaks_isolation :
   let st := mk_c true true true 7 true 3 (RoleStore 3) [3] in
